@@ -16,12 +16,12 @@ func histPlan(tier string, rule string) Plan {
 // histPlanAudit: the explorer's runs followed by the full-list audits (audit.go)
 func histPlanAudit(tier string, rule string) Plan {
 	p := histPlan(tier, rule+auditRule)
-	p.Runs += auditRuns(tier) + siblingAuditRuns(tier)
-	p.Enumerated = auditRuns(tier) + siblingAuditRuns(tier) // the audits come first and are never cut by the wall-clock budget
+	p.Runs += auditRuns(tier) + siblingAuditRuns(tier) + crossIssuerAuditRuns(tier)
+	p.Enumerated = auditRuns(tier) + siblingAuditRuns(tier) + crossIssuerAuditRuns(tier) // the audits come first and are never cut by the wall-clock budget
 	return p
 }
 
-const auditRule = "; the first 8 (thorough: 48) runs are full-list audits: a 700..4500-entry (thorough: up to 17000) list is loaded (first load) and replaced (refresh) on each backend, and EVERY listed serial, every removed serial and the never-listed neighbour of every listed serial is probed; the next 4 (thorough: 16) are sibling-location audits: eight CRLs of one issuer at locations that differ only in letter case, an encoded separator, a path parameter or the query string, configured (crl_urls) or met as distribution points in varying order, on each backend; every list the validator claims to hold must revoke its own serials"
+const auditRule = "; the first 8 (thorough: 48) runs are full-list audits: a 700..4500-entry (thorough: up to 17000) list is loaded (first load) and replaced (refresh) on each backend, and EVERY listed serial, every removed serial and the never-listed neighbour of every listed serial is probed; the next 4 (thorough: 16) are sibling-location audits: eight CRLs of one issuer at locations that differ only in letter case, an encoded separator, a path parameter or the query string, configured (crl_urls) or met as distribution points in varying order, on each backend; every list the validator claims to hold must revoke its own serials; the next 2 are cross-issuer audits: two issuers whose names written out are digit-prefix relatives, every serial s of a loaded list is probed under the other issuer as s and as the serial whose name+serial text reads the same"
 
 func histOrAudit(h *Harness, cfg histCfg, prefix string) {
 	if n := auditRuns(h.Tier); h.Idx < n {
@@ -32,6 +32,11 @@ func histOrAudit(h *Harness, cfg histCfg, prefix string) {
 	if n := auditRuns(h.Tier); h.Idx < n+siblingAuditRuns(h.Tier) {
 		ownPrefix = prefix
 		runSiblingAudit(h, h.Idx-n)
+		return
+	}
+	if n := auditRuns(h.Tier) + siblingAuditRuns(h.Tier); h.Idx < n+crossIssuerAuditRuns(h.Tier) {
+		ownPrefix = prefix
+		runCrossIssuerAudit(h, h.Idx-n)
 		return
 	}
 	runCRLHistoryOwned(h, cfg, prefix)
